@@ -59,6 +59,12 @@ package objectdeployments
 //@ props C07,C09
 //@ func package-operator.run/internal/controllers/objectdeployments.(*objectSetReconciler).Reconcile
 //@   sink objectSetSubReconciler.Reconcile#1 requires [C09] !depPaused(objectDeployment)
+// the ObjectSet taken as "current" is the newest one (or none): an older ObjectSet that happens to carry the
+// template's hash - a rollback - is a previous revision like any other, so a fresh ObjectSet is created
+//@   loop @IsArchived invariant [C07] currentObjectSet == nil || (len(objectSets) > 0 && currentObjectSet == objectSets[len(objectSets) - 1])
+//@   loop @objectSetSubReconciler.Reconcile invariant [C07] idx == 0 ==> (currentObjectSet == nil || (len(objectSets) > 0 && currentObjectSet == objectSets[len(objectSets) - 1]))
+// (checked where the first sub-reconciler is called; the variable is not assigned afterwards)
+//@   at objectSetSubReconciler.Reconcile assert [C07] idx == 0 ==> (arg1 == nil || (len(objectSets) > 0 && arg1 == objectSets[len(objectSets) - 1]))
 // no revision is created (or anything else decided) while some existing ObjectSet has not reported its revision yet
 //@   loop @GetRevision invariant [C07] 0 <= idx && (forall i int :: 0 <= i && i < idx ==> ownerRev(objectSets[i]) != 0)
 //@   at loopexit@GetRevision assert [C07] forall i int :: 0 <= i && i < len(objectSets) ==> ownerRev(objectSets[i]) != 0
